@@ -2,6 +2,7 @@ import Ledger.Driver.Core
 import Ledger.Base.Sha256
 import Ledger.Log.Safe
 import Ledger.Log.SqlHash
+import Ledger.Log.Chain
 
 /-!
 Handlers of `ldriver_hash` (core-only):
@@ -236,9 +237,61 @@ def handleGoHash : Handler := fun inp out => do
            note := if prop then "" else s!"SQL preimage hash {sqlHash} ≠ ComputeHash {gotHash}",
            sig }
 
+/-- stored hash bytes of a row -/
+def rowHashHex (r : Row) : String :=
+  match r.hash with
+  | .bytea h => Sha256.hex h
+  | _ => "<no hash>"
+
+/-- executable form of `Chained` (property C09) over the model table -/
+def chainedOk (H : Bytes → Bytes) : Nat → PrevHash → List Log → List Row → Bool
+  | _, _, [], [] => true
+  | n, p, log :: logs, row :: rows =>
+    (match sqlPreimage log p with
+     | .ok pre => row.id == .num (n + 1) && row.hash == .bytea (H pre) && chainedOk H (n + 1) (some (H pre)) logs rows
+     | .error _ => false)
+  | _, _, _, _ => false
+
+/-- the reference chain: `ChainLog` = `ComputeHash(previous)` with the previous log's hash -/
+def goChain (H : Bytes → Bytes) : PrevHash → List Log → Except HashErr (List Bytes)
+  | _, [] => .ok []
+  | p, l :: ls => match goPreimage l p with
+    | .error e => .error e
+    | .ok pre => match goChain H (some (H pre)) ls with
+      | .error e => .error e
+      | .ok hs => .ok (H pre :: hs)
+
+def handleChain : Handler := fun inp out => do
+  let logs ← (← arrField inp "logs").mapM logOfJson
+  let gotHashes ← strArrField out "hashes"
+  let gotIds ← (← arrField out "ids").mapM natOfJson
+  let gotPanic := optStrField out "panic"
+  let hasSv := logs.any fun l => l.schemaVersion ≠ []
+  let tags := [if logs.length ≤ 1 then "len:1" else if logs.length ≤ 4 then "len:2-4" else "len:5+",
+               if hasSv then "with-schema-version" else "no-schema-version"]
+  match goChain Sha256.sha256 none logs with
+  | .error e => throw s!"reference chain: {errStr e}"
+  | .ok ghs =>
+    let modelGo := ghs.map Sha256.hex
+    let agree := gotPanic = "" && gotHashes = modelGo && gotIds = (List.range logs.length).map (· + 1)
+    match insertAll Sha256.sha256 b!"l" logs [] with
+    | .error e => throw s!"model insert failed on a SafeChars chain: {errStr e}"
+    | .ok tbl =>
+      let stored := tbl.map rowHashHex
+      let prop := gotPanic = "" && stored = gotHashes
+      let propModel := chainedOk Sha256.sha256 0 none logs tbl
+      let sig := if !agree then "C09:go-model-mismatch"
+                 else if !propModel then "C09:model-chain-not-linear"
+                 else if prop then ""
+                 else if hasSv then "C09:schema-version-not-hashed" else "C09:chain-mismatch"
+      pure { model := Json.mkObj [("go", jStrs modelGo), ("stored", jStrs stored)], agree,
+             prop := prop && propModel, propModel, nontrivial := logs.length ≥ 2, tags,
+             note := if prop then "" else "stored chain (SQL model) differs from the reference chain (ChainLog)", sig }
+
 def hashHandlers : List (String × Handler) := [
   ("sha", handleSha),
-  ("gohash", handleGoHash)
+  ("gohash", handleGoHash),
+  ("chain", handleChain)
 ]
 
 end Ledger.Driver
